@@ -6,6 +6,7 @@
 import Proofs.C13ExtSeed
 import Proofs.C13ExtLoop
 import Proofs.C02Frame
+import Proofs.C02PosFrame
 import Proofs.C18
 
 set_option linter.unusedVariables false
